@@ -4,6 +4,7 @@ claim("C02", "Proof for all transactions (any number of postings and commodities
 claim("C08", "Proof of the lexer position bookkeeping clauses and the server range helpers (astRangeToProtocol value-preserving conversions, positionInRange exact, estimatePayeeRange shape). Two property-derived clauses are refuted on the pinned tree and recorded as known findings with replayed inputs. Other range builders are undecided (named in evidence).", "5.C08")
 claim("C19", "Proof that the settings converters are total on every interface{} value (no failing type assertion), that applySettingsMap implements dotted-over-nested precedence and keeps old values for ill-typed entries (sample fields), and that normalizeServerSettings falls back to defaults for non-positive numbers. 'Takes effect on subsequent behaviour' is undecided.", "5.C19")
 claim("C20", "Proof for all transaction lists that CalculateAccountBalancesFromTransactions returns, for every account and commodity, exactly the double sum of explicitly posted quantities (nested-map ownership invariant, two nested loops). Counting helpers, AllTransactions and hover rendering are undecided (named in evidence).", "5.C20")
+claim("C12", "Proof for all index states and file indexes that addFileIndex/removeFileIndex (the real functions, all nine loops) change the account/payee/commodity/tag/date counters by exactly the file's counts (for every key), maintain the file table and the payee templates as coded, touch no other counter (frames incl. the nested tag-value maps), that decrementBy/copyIntMap meet their map specifications, and - as a lemma over those two contracts only - that remove(add(S,f),f) restores every counter. The same lemma for payee templates is refuted (known finding). Tag-value counts, the transaction index, derived sorted lists, include-graph membership (refreshIncludeTreeLocked) and declared sets are undecided (named in evidence).", "5.C12")
 for pid, why in {
  "C04": "not claimed yet: formatter contracts are not written in this commit",
  "C05": "not claimed yet: formatter contracts are not written in this commit",
@@ -11,7 +12,6 @@ for pid, why in {
  "C09": "not claimed yet: references/rename contracts are not written in this commit",
  "C10": "not claimed yet: loader contracts being ported",
  "C11": "not claimed yet: loader contracts being ported",
- "C12": "not claimed yet: index contracts being ported to the untrimmed functions",
  "C15": "not claimed yet: order-independence obligations not wired in this commit",
  "C16": "not claimed yet: completion contracts are not written in this commit",
  "C17": "not claimed yet: tokenizer contracts being completed",
